@@ -307,25 +307,25 @@ def simplifications(trace):
         if len(trace["actors"]) > 2 or name == "W":
             c = copy.deepcopy(trace)
             del c["actors"][name]
-            c.pop("schedule", None)
+            c.pop("schedule", None); c.pop("lock_timeouts", None)
             yield c
         for j in range(len(ops)):
             if len(ops) > 1:
                 c = copy.deepcopy(trace)
                 del c["actors"][name][j]
-                c.pop("schedule", None)
+                c.pop("schedule", None); c.pop("lock_timeouts", None)
                 yield c
     g = trace["config"]["granularity"]
     if g != "coarse":
         c = copy.deepcopy(trace)
         c["config"]["granularity"] = "coarse" if g == "line" else "line"
-        c.pop("schedule", None)
+        c.pop("schedule", None); c.pop("lock_timeouts", None)
         yield c
     for key, val in (("cached", False), ("moddir", False)):
         if trace["config"].get(key) != val:
             c = copy.deepcopy(trace)
             c["config"][key] = val
-            c.pop("schedule", None)
+            c.pop("schedule", None); c.pop("lock_timeouts", None)
             yield c
     # fewer context switches: merge adjacent schedule segments
     sch = trace.get("schedule")
@@ -369,6 +369,9 @@ class Harness:
         replay = trace.get("schedule")
         self.sched = Scheduler(mkrng("sched:%s" % trace["sched"]["seed"]), cfg["strategy"], trace["sched"]["params"],
                                replay=replay, max_steps=20000)
+        self.sched.timeout_rng.seed("lock-timeouts:%s" % trace["sched"]["seed"])
+        if trace.get("lock_timeouts") is not None:
+            self.sched.replay_timeouts = trace["lock_timeouts"]
         self.lenient = bool(trace.get("schedule_lenient"))
         if self.lenient and replay is not None:
             # a hand-edited (shrunk) schedule: past its end / on a non-runnable name fall back to "keep running"
@@ -922,5 +925,5 @@ def execute_single(trace, root):
                    "schedule_head": h.sched.decisions[:10], "scheduling_points": h.sched.step},
     }
     if trace.get("schedule") is None:
-        out["trace_patch"] = {"schedule": h.sched.decisions}
+        out["trace_patch"] = {"schedule": h.sched.decisions, "lock_timeouts": [int(d) for d in h.sched.timeout_decisions]}
     return out
